@@ -1173,6 +1173,10 @@ def observe_api(est, X, y, kauri):
 
 def compare_api(ref, got, tol_score, tol_proba=1e-12):
     out = []
+    if tol_proba > 1e-12 and "proba" in ref and ref["proba"].shape == got["proba"].shape and ref["proba"].shape[1] > 1:
+        srt = np.sort(ref["proba"], axis=1)          # float32 resolution: decisions compared where the reference margin is clear
+        clear = (srt[:, -1] - srt[:, -2]) > 1e-4
+        ref, got = dict(ref, predict=ref["predict"][clear]), dict(got, predict=got["predict"][clear])
     if "proba" in ref and (ref["proba"].shape != got["proba"].shape or np.abs(ref["proba"] - got["proba"]).max() > tol_proba):
         out.append("predict_proba")
     if not np.array_equal(ref["predict"], got["predict"]):
@@ -1206,7 +1210,19 @@ def stream_repr(chk, i, rng):
         ov["batch_size"] = [None, 3, 100][i % 3]
     if "solver" in ps:
         ov["solver"] = SOLVERS[(i // 2) % 2]
-    sp = make_spec(name, ov, data={"n": 7, "d": 2 if kind == "bool" else 3, "seed": int(rng.integers(0, 1000))})
+    repr_case(chk, rng, name, kind, ov, 7)
+
+
+def stream_repr_kauri(chk, i, rng):
+    """every representation of X and of a precomputed kernel through Kauri.fit / fit_predict / predict / score (the compiled
+    routines take float64 writable buffers: regression of 70daa00)"""
+    kind = REPRS[i % len(REPRS)]
+    ov = [{"kernel": "precomputed"}, {}, {"kernel": "precomputed", "max_clusters": 2, "max_depth": 2}][(i // len(REPRS)) % 3]
+    repr_case(chk, rng, "Kauri", kind, ov, 10)
+
+
+def repr_case(chk, rng, name, kind, ov, n0):
+    sp = make_spec(name, ov, data={"n": n0, "d": 2 if kind == "bool" else 3, "seed": int(rng.integers(0, 1000))})
     n, d = sp["data"]["n"], sp["data"]["d"]
     X = repr_data(rng, n, d, kind)
     Q = repr_data(rng, n + 2, d, kind)             # query points (integral for the integer dtypes) for a model with fractional parameters
@@ -1217,7 +1233,8 @@ def stream_repr(chk, i, rng):
     ref, var, frac = cls(**copy.deepcopy(kw)), cls(**copy.deepcopy(kw)), cls(**copy.deepcopy(kw))
     ak = affinity_kind(ref)
     y, yq, yfrac = exact_affinity(ak, X), exact_affinity(ak, Q), exact_affinity(ak, Xfrac)
-    Xv, yv, Qv, yqv = represent(X, kind), represent(y, kind if kind != "bool" else "fortran"), represent(Q, kind), represent(yq, kind if kind != "bool" else "fortran")
+    ykind = "fortran" if kind == "bool" else "readonly" if kind in ("list", "tuple") else kind     # a precomputed affinity is documented as an ndarray
+    Xv, yv, Qv, yqv = represent(X, kind), represent(y, ykind), represent(Q, kind), represent(yq, ykind)
     keep = [copy.deepcopy(v) for v in (Xv, yv, Qv, yqv)]
     replay = {"estimator": name, "representation": kind, "params": {k: tok_str(v) for k, v in sp["params"].items()}, "n": n, "d": d}
     key = f"repr:{name}:{kind}"
@@ -1229,14 +1246,21 @@ def stream_repr(chk, i, rng):
     RQ = observe_api(ref, Q, yq, kauri) if name not in impl.NONPARAMETRIC else None
     FQ = observe_api(frac, Q, yq, kauri) if name not in impl.NONPARAMETRIC else None
     # the affinity inside score is computed from the raw float32 / in float32 by scikit-learn: float32 resolution there
-    tol = 1e-5 if kind == "float32" else 1e-9
-    # KernelRIM evaluates its base kernel on the data as given: scikit-learn computes it in float32 for float32 input
+    # float32 only: where scikit-learn computes a kernel / distance on the data as given it computes in float32 (score's affinity,
+    # KernelRIM's base kernel); linear and precomputed kernels of these exactly representable values stay exact
+    exact32 = kauri and sp["params"].get("kernel", "linear") in ("linear", "precomputed")
+    tol = 1e-5 if (kind == "float32" and not exact32) else 1e-9
     tp = 1e-5 if (kind == "float32" and name == "KernelRIM") else 1e-12
+    margin_rule = kind == "float32" and name == "KernelRIM"
     try:
         with quiet():
             var.fit(Xv, yv)
         problems = []
-        if not np.array_equal(np.asarray(var.labels_), np.asarray(ref.labels_)):
+        clear = np.ones(n, dtype=bool)
+        if margin_rule:       # labels compared only where the reference margin between the two best probabilities is clear
+            srt = np.sort(R["proba"], axis=1)
+            clear = (srt[:, -1] - srt[:, -2]) > 1e-4 if srt.shape[1] > 1 else clear
+        if not np.array_equal(np.asarray(var.labels_)[clear], np.asarray(ref.labels_)[clear]):
             problems.append("labels_")
         problems += ["fit+" + w for w in compare_api(R, observe_api(var, Xv, yv, kauri), tol, tp)]
         problems += ["ref-model(" + w + ")" for w in compare_api(R, observe_api(ref, Xv, yv, kauri), tol, tp)]
@@ -1246,7 +1270,7 @@ def stream_repr(chk, i, rng):
         with quiet():
             fp_ref = np.asarray(cls(**copy.deepcopy(kw)).fit_predict(X, y))
             fp_var = np.asarray(cls(**copy.deepcopy(kw)).fit_predict(Xv, yv))
-        if not np.array_equal(fp_ref, fp_var) or not np.array_equal(fp_ref, np.asarray(ref.labels_)):
+        if not np.array_equal(fp_ref[clear], fp_var[clear]) or not np.array_equal(fp_ref, np.asarray(ref.labels_)):
             problems.append("fit_predict")
         if problems:
             chk.fail(key + ":differs", f"{kind} input gives other results than the float64 C-contiguous reference: {problems[:5]}", replay, layer="L3")
@@ -1455,7 +1479,7 @@ def main():
                 ("refit", specs_refit(chk, (1 if quick else 4) * widen, notes)),
                 ("grid", specs_grid(chk, notes, sample=(400 * widen if quick else None)))]
         chk.run_stream("softmax", stream_softmax, 300 if quick else 5000)
-        for nm, fn, cnt in (("repr", stream_repr, 198 if quick else 990), ("extreme", stream_extreme, 84 if quick else 420), ("path", stream_path, 40 if quick else 200)):
+        for nm, fn, cnt in (("repr", stream_repr, 198 if quick else 990), ("repr_kauri", stream_repr_kauri, 33 if quick else 99), ("extreme", stream_extreme, 84 if quick else 420), ("path", stream_path, 40 if quick else 200)):
             t0 = time.time()
             chk.run_stream(nm, fn, cnt * widen)
             chk.notes.append(f"stream {nm}: {cnt * widen} cases in {time.time() - t0:.1f}s")
